@@ -182,6 +182,7 @@ type c17Job struct {
 	writtenTerminal         sev1alpha1.PodMigrationJobPhase // first Succeeded/Failed that was written
 	nameOnlyRef             bool                            // user-supplied reservationRef without UID
 	deleted                 bool                            // removed by the scavenger
+	prunedBeforeEvict       bool
 	msgChangedWhileEvicting bool
 	userTemplate            string // "", or the allocateOnce value of a user-written reservation template: nil / true / false
 	falseTemplateConsumed   bool   // template said allocateOnce=false and another pod consumed the reservation before the job evicted
@@ -226,6 +227,8 @@ type c17Env struct {
 	sawScavenge, sawScavengeExpiredWithResv, sawScavengeForeignExpiredWithResv, sawMsgChangeWhileEvicting, sawReconcileAfterMsgChange bool
 	scavengeProfile                                                                                                                   bool
 	fitsNowhere                                                                                                                       bool
+	pruneOwners                                                                                                                       bool
+	sawOwnersPruned, sawOwnersPrunedBeforeEvict, sawReconcileAfterPrune                                                               bool
 	sawPreemptForNoNeed, sawGivenUpNoNeedReconciled, sawNonOnceConsumedBeforeEvict, sawNonOnceConsumedThenReconciled                  bool
 	preemptShape                                                                                                                      int  // how an incomplete Preempt answers during the next reconcile
 	userInput                                                                                                                         bool // second test: jobs as users write them (name-only reservationRef, unresolvable podRef), TTL expiry favoured
@@ -987,6 +990,9 @@ func (e *c17Env) reconcile(t *rapid.T, j *c17Job) {
 	if j.targetBoundOwn && !preTerminal {
 		e.sawReconcileAfterTargetBound = true
 	}
+	if j.prunedBeforeEvict && !preTerminal {
+		e.sawReconcileAfterPrune = true
+	}
 	if j.msgChangedWhileEvicting && !preTerminal {
 		e.sawReconcileAfterMsgChange = true
 	}
@@ -1131,6 +1137,12 @@ func TestVerifC17UserInput(t *testing.T) { c17RunTest(t, "userInput", true) }
 // armed from the start, and in half of the cases a reservation interpreter that offers the Preemption() extension point.
 func TestVerifC17Extended(t *testing.T) { c17RunTest(t, "extended", false) }
 
+// TestVerifC17OwnersPruned: the same machine plus one environment event - the pod that consumed a reservation goes away and
+// status.currentOwners is pruned while the reservation keeps its phase (Succeeded for allocate-once). koord-scheduler's
+// reservation controller in this tree stops syncing a Succeeded reservation, other writers of the status may not; the
+// controller defends against the state (a Succeeded reservation without bound pod counts as taken). Own test function: own draws.
+func TestVerifC17OwnersPruned(t *testing.T) { c17RunTest(t, "ownersPruned", false) }
+
 func c17RunTest(t *testing.T, unit string, userInput bool) {
 	rec := vk.New(t, "C17", unit)
 	c17QuietKlog()
@@ -1149,6 +1161,7 @@ func c17RunTest(t *testing.T, unit string, userInput bool) {
 		e := c17NewEnv(c, scheme)
 		e.userInput = userInput
 		e.extended = unit == "extended"
+		e.pruneOwners = unit == "ownersPruned"
 		if e.extended {
 			e.preempt = rapid.Bool().Draw(t, "interpreterOffersPreemption")
 			e.scavengeProfile = rapid.IntRange(0, 2).Draw(t, "scavengeProfile") == 2
@@ -1635,6 +1648,54 @@ func c17RunTest(t *testing.T, unit string, userInput bool) {
 			"fault":                   all["fault"],
 			"restart-or-new-job":      group("restart", "createJob", "createJob"),
 		}
+		if e.pruneOwners {
+			prune := func(r *sev1alpha1.Reservation) {
+				for _, o := range r.Status.CurrentOwners {
+					if p := e.getPod(o.Name); p != nil && p.UID == o.UID {
+						_ = e.base.Delete(c17Ctx, p)
+					}
+				}
+				r.Status.CurrentOwners = nil
+				e.updateResvStatus(r)
+				e.sawOwnersPruned = true
+				e.hist = append(e.hist, fmt.Sprintf("env: the pod that consumed reservation %s is gone, currentOwners pruned (phase stays %s)", r.Name, r.Status.Phase))
+				for _, j := range e.jobs {
+					if api := e.getJob(j.name); j.resvName == r.Name && api != nil && !c17Terminal(api.Status.Phase) && c17JobCond(api, sev1alpha1.PodMigrationJobConditionEviction) == nil {
+						j.prunedBeforeEvict = true
+						e.sawOwnersPrunedBeforeEvict = true
+					}
+				}
+			}
+			actions["consumer-pod-goes-away"] = func(t *rapid.T) {
+				if e.dead {
+					return
+				}
+				_, r := pickResv(t, func(r *sev1alpha1.Reservation) bool { return len(r.Status.CurrentOwners) > 0 })
+				prune(r)
+			}
+			// another replica takes the reservation before the job evicted, and leaves again
+			takeAndLeave := func(t *rapid.T) {
+				if e.dead {
+					return
+				}
+				j := pickJob(t)
+				api := e.getJob(j.name)
+				r := e.getResv(j.resvName)
+				if r == nil || ownedByOnePod(r) || c17Terminal(api.Status.Phase) || c17JobCond(api, sev1alpha1.PodMigrationJobConditionEviction) != nil {
+					t.Skip("job finished or already evicting")
+				}
+				switch {
+				case bindable(r):
+					bind(t, j, r, rapid.Bool().Draw(t, "ready"))
+				case len(r.Status.CurrentOwners) > 0:
+					prune(r)
+				default:
+					t.Skip("nothing to do")
+				}
+			}
+			actions["replica-takes-reservation-and-leaves-a"] = takeAndLeave
+			actions["replica-takes-reservation-and-leaves-b"] = takeAndLeave
+		}
 		if e.userInput {
 			// the workload scales out (or replaces a pod) while a job with a user-written template has not evicted yet: the new
 			// replica matches the reservation's owners and consumes it
@@ -1913,6 +1974,9 @@ func c17RunTest(t *testing.T, unit string, userInput bool) {
 		c.ClassIf(e.sawOrphanAtTTL, "ttl-abort-leaves-unreferenced-reservation(not asserted)")
 		c.ClassIf(e.sawTTLAbortNameOnlyRef, "ttl-abort-of-job-with-name-only-reservation-ref")
 		c.ClassIf(e.preempt, "interpreter-offers-preemption")
+		c.ClassIf(e.sawOwnersPruned, "consumer-of-reservation-gone-owners-pruned")
+		c.ClassIf(e.sawOwnersPrunedBeforeEvict, "consumed-reservation-loses-its-owner-before-the-job-evicted")
+		c.ClassIf(e.sawOwnersPrunedBeforeEvict && e.sawReconcileAfterPrune, "...and-then-that-job-is-reconciled")
 		c.ClassIf(e.fitsNowhere, "profile:full-cluster-nothing-fits-without-preemption")
 		c.ClassIf(e.sawScavenge, "scavenger-round")
 		c.ClassIf(e.sawScavengeExpiredWithResv, "scavenger-round-finds-expired-job-that-still-holds-a-reservation")
